@@ -1,1 +1,111 @@
-import TT.Model.Wire
+/-
+  C08 — The receiver never misuses host span ids and never leaks host spans.
+
+  `WellUsed log`: scanning the host's call log in order, every span id a call refers to
+  (record, follows-from on either side, enter, exit, clone, close, explicit parent of a new span
+  or event) was issued earlier in that log (`newSpan` / `base`) and has not been closed before;
+  in particular no span is closed twice. The theorem holds for every event sequence (well-formed
+  or not) and every history with the local map kept, lost (same or new host) or discarded.
+-/
+import TT.Lemmas.RecvSim
+
+namespace TT
+
+def HParent.uses : HParent → List Nat
+  | .explicit h => [h]
+  | _ => []
+
+/-- Span ids a call refers to (as opposed to the one it issues). -/
+def HostCall.uses : HostCall → List Nat
+  | .register _ => []
+  | .newSpan _ _ p _ => p.uses
+  | .record h _ => [h]
+  | .follows a b => [a, b]
+  | .enter h | .exit h | .clone h | .tryClose h => [h]
+  | .event _ p _ => p.uses
+  | .base _ => []
+
+def HostCall.issues : HostCall → List Nat
+  | .newSpan h _ _ _ => [h]
+  | .base h => [h]
+  | _ => []
+
+def HostCall.closes : HostCall → List Nat
+  | .tryClose h => [h]
+  | _ => []
+
+/-- Scan oldest-first. -/
+def wellUsedFrom (issued closed : List Nat) : List HostCall → Bool
+  | [] => true
+  | c :: cs =>
+    c.uses.all (fun h => issued.contains h && !closed.contains h) &&
+      wellUsedFrom (issued ++ c.issues) (closed ++ c.closes) cs
+
+/-- `log` is newest-first (as kept by `Host`). -/
+def WellUsed (log : List HostCall) : Prop := wellUsedFrom [] [] log.reverse = true
+
+def issuedIn (log : List HostCall) : List Nat := log.reverse.flatMap HostCall.issues
+def closedIn (log : List HostCall) : List Nat := log.reverse.flatMap HostCall.closes
+
+/-- The initial host may already have a history of its own (e.g. spans entered by the embedding
+    application) as long as it is itself well-used and its ids are below `next`. -/
+def HostOK (host : Host) : Prop :=
+  WellUsed host.log ∧ ∀ h ∈ issuedIn host.log, h < host.next
+
+/-- Every id the receiver chain passes to the host was issued by that host and is not yet closed;
+    no host span is closed twice. For every history whatsoever. -/
+theorem C08_id_discipline (w₀ : World) (hw : HostOK w₀.host) (ops : List HOp) :
+    WellUsed (runHistory (Sys.init w₀) ops).σ.w.host.log := by
+  sorry
+
+theorem C08_never_closes_twice (w₀ : World) (hw : HostOK w₀.host) (ops : List HOp) :
+    (closedIn (runHistory (Sys.init w₀) ops).σ.w.host.log).Nodup := by
+  sorry
+
+/-- When the last handle of a guest span is dropped and a host span exists for it, exactly that
+    host span is closed at that moment and the local map entry is removed. -/
+theorem C08_close_on_last_drop (σ : Sigma) (id h : Nat) (d : SpanData)
+    (hs : σ.r.spans.get id = some d) (hrc : d.refCount = 1) (hl : σ.r.loc.get id = some h) :
+    ∃ σ', tryReceive σ (.dropped id) = .ok σ' ∧
+      σ'.w.host.log = .tryClose h :: σ.w.host.log ∧
+      σ'.r.loc.get id = none ∧ σ'.r.spans.get id = none := by
+  sorry
+
+/-- A drop that is not the last one, or for a span without host span, makes no host call. -/
+theorem C08_other_drops_silent (σ σ' : Sigma) (id : Nat) (d : SpanData)
+    (hs : σ.r.spans.get id = some d) (h : d.refCount ≠ 1 ∨ σ.r.loc.get id = none)
+    (hok : tryReceive σ (.dropped id) = .ok σ') : σ'.w.host.log = σ.w.host.log := by
+  sorry
+
+def onlyKeep : List HOp → Bool
+  | [] => true
+  | .ev _ :: ops => onlyKeep ops
+  | .persist .keep :: ops => onlyKeep ops
+  | _ => false
+
+/-- With the local map preserved, a fully completed execution (no guest span alive) leaves an
+    empty local map and no host span open. -/
+theorem C08_complete_run (arena : List CallSite) (ops : List HOp) (hk : onlyKeep ops = true) :
+    let s := runHistory (Sys.init { arena, host := {} }) ops
+    s.σ.r.spans = [] → s.σ.r.loc = [] ∧ ∀ h ∈ issuedIn s.σ.w.host.log, h ∈ closedIn s.σ.w.host.log := by
+  sorry
+
+/-- Non-vacuity: a complete run across a kept cut; and a run where the map is lost, which leaks
+    a host span but still never misuses an id. -/
+example :
+    let d : CallSite := ⟨.span, [110], [97], .info, none, none, none, []⟩
+    let ops : List HOp := [.ev (.newCallSite 7 d), .ev (.newSpan 1 none 7 []), .ev (.entered 1), .ev (.exited 1),
+      .persist .keep, .ev (.entered 1), .ev (.exited 1), .ev (.dropped 1)]
+    let s := runHistory (Sys.init {}) ops
+    onlyKeep ops = true ∧ s.σ.r.spans = [] ∧ issuedIn s.σ.w.host.log = [1] ∧ closedIn s.σ.w.host.log = [1] := by
+  decide
+
+example :
+    let d : CallSite := ⟨.span, [110], [97], .info, none, none, none, []⟩
+    let ops : List HOp := [.ev (.newCallSite 7 d), .ev (.newSpan 1 none 7 []), .persist .lose,
+      .ev (.entered 1), .ev (.exited 1), .ev (.dropped 1)]
+    let s := runHistory (Sys.init {}) ops
+    wellUsedFrom [] [] s.σ.w.host.log.reverse = true ∧ issuedIn s.σ.w.host.log = [1, 2] ∧ closedIn s.σ.w.host.log = [2] := by
+  decide
+
+end TT
